@@ -128,7 +128,9 @@ class Tracer:
         k = self.plan.get("kind")
         if k == "crash" and i == self.plan["k"]:
             os._exit(9)
-        if k == "fault" and i == self.plan["k"]:
+        if k == "faultcrash" and i == self.plan["j"]:
+            os._exit(9)              # process death at a later boundary, after the injected error
+        if k in ("fault", "faultcrash") and i == self.plan["k"]:
             en = getattr(_errno, self.plan["errno"])
             self.emit(dict(i=i, res=self.plan["errno"], injected=True))
             raise OSError(en, os.strerror(en))
@@ -136,13 +138,41 @@ class Tracer:
 
     def done(self, i, res):
         if i is not None:
-            self.emit(dict(i=i, res=res))
+            m = dict(i=i, res=res)
+            if self.plan.get("watch"):
+                m["snap"] = self.snap()      # what an observer of the target sees right after this call
+            self.emit(m)
+
+    def snap(self):
+        """bytes + mode of the watched path, read with the unpatched os functions"""
+        try:
+            fd = self.r_open(self.plan["watch"], os.O_RDONLY)
+        except FileNotFoundError:
+            return None
+        except OSError as e:
+            return dict(kind="unreadable", err=errname(e))
+        try:
+            st = os.fstat(fd)
+            parts = []
+            while True:
+                b = self.real_read(fd, 1 << 20)
+                if not b:
+                    break
+                parts.append(b)
+        finally:
+            self.r_close(fd)
+        if not _stat.S_ISREG(st.st_mode):
+            return dict(kind="notregular", mode="%06o" % st.st_mode)
+        data = b"".join(parts)
+        return dict(len=len(data), sha=sha(data), mode="%04o" % _stat.S_IMODE(st.st_mode), gid=st.st_gid)
 
     # -- wrappers ------------------------------------------------------------
     def install(self):
         T = self
         self.real_write = os.write
         self.real_read = os.read
+        self.r_open = os.open
+        self.r_close = os.close
         real_open = builtins.open
 
         class TFileIO(io.FileIO):
@@ -420,6 +450,8 @@ def fold_trace(msgs):
             fin, ncalls = m["fin"], m.get("ncalls")
         elif "res" in m:
             calls[m["i"]]["res"] = m["res"]
+            if "snap" in m:
+                calls[m["i"]]["snap"] = m["snap"]
             if m.get("injected"):
                 calls[m["i"]]["injected"] = True
         else:
